@@ -725,6 +725,16 @@ func IsValidFilter(filter string, forPublish bool) bool {
 		return false
 	}
 
+	if wildhash > 0 && filter[wildhash-1] != '/' {
+		return false // [MQTT-4.7.1-2] the multi-level wildcard must occupy an entire level
+	}
+
+	for i := 0; i < len(filter); i++ {
+		if filter[i] == '+' && ((i > 0 && filter[i-1] != '/') || (i < len(filter)-1 && filter[i+1] != '/')) {
+			return false // [MQTT-4.7.1-3] the single-level wildcard must occupy an entire level
+		}
+	}
+
 	prefix, hasNext := isolateParticle(filter, 0)
 	if !hasNext && strings.EqualFold(prefix, SharePrefix) {
 		return false // [MQTT-4.8.2-1]
@@ -738,6 +748,10 @@ func IsValidFilter(filter string, forPublish bool) bool {
 
 		if strings.ContainsRune(group, '+') || strings.ContainsRune(group, '#') {
 			return false // [MQTT-4.8.2-2]
+		}
+
+		if len(group) == 0 || len(filter) == len(prefix)+len(group)+2 {
+			return false // [MQTT-4.8.2-1] the share name and the filter following it must be at least one character long
 		}
 	}
 
